@@ -148,7 +148,8 @@ def run(ctx):
         out = os.path.join(ctx.scratch, "c18_out_%s.json" % name)
         rc, txt = ctx.run_bin(binary, "^TestVerifC18$",
                               env={"VERIF_CASES": path, "VERIF_OUT": out, "VERIF_E2E": e2e_path, "VERIF_STRESS": stress_path,
-                                   "VERIF_STRESS_MS": stress_ms, "LOG_LEVEL": "error"}, timeout=9000)
+                                   "VERIF_STRESS_MS": stress_ms, "VERIF_NAME_EVERY": 3 if ctx.tier == "quick" else 1, "VERIF_NAME_ALL": 1 if ctx.replay else 0,
+                                   "LOG_LEVEL": "error"}, timeout=9000)
         if rc != 0 or not os.path.exists(out):
             raise vlib.Infra("C18 harness (%s) failed rc=%s:\n%s" % (name, rc, txt[-3000:]))
         r = json.load(open(out))
@@ -175,7 +176,7 @@ def run(ctx):
     ctx.rule = ("case = (JSON object with unique keys over the names a, b, 'a.b', 'a.b.a', 'b.a', <= 5 members, depth <= 3, leaf kinds 1 / \"s\" / "
                 "null / [] / [{\"a\":1}] / {}; list of 1-3 selectors of length <= 3 over the same names, written with "
                 "escaped dots, short-first / long-first / with a repeat), enumerated exhaustively by TLC per family (%s "
-                "cases); every case is run on the real keep_fields and remove_fields (Start + Do as regular event twice, as child event, as child-parent event, and once with names of one of the lengths 1..1000) and the encoded "
+                "cases); every case is run on the real keep_fields and remove_fields (Start + Do as regular event twice, as child event, as child-parent event, and (every 3rd case in quick, every case in thorough) once with names of one of the lengths 1..1000) and the encoded "
                 "event compared token by token with the declarative expectation; cases with the marker member are widened "
                 "to 1/99/100/101/150/250 junk members per marker and run through one instance in ascending and one in "
                 "descending width (12 events). Non-trivial = (case, plugin) pairs whose "
